@@ -28,6 +28,9 @@ type vfTScenario struct {
 	Strategy int        `json:"strategy,omitempty"`
 	Threads  [][]string `json:"threads"`
 	Variant  string     `json:"variant"`
+	// seqno: the GetFaultAt-th Get of the execution (1-based, in execution order) returns an error (0: none) --
+	// a fault point of the metadata store, enumerated together with the schedules
+	GetFaultAt int `json:"get_fault_at,omitempty"`
 }
 
 type vfTCase struct {
@@ -56,12 +59,17 @@ type vfTRun struct {
 
 // vfSchedStore: PeerMetadataStore whose Get/Put are scheduling points.
 type vfSchedStore struct {
-	v    []byte
-	puts []uint64
+	v             []byte
+	puts          []uint64
+	gets, faultAt int
 }
 
 func (s *vfSchedStore) Get(ctx context.Context, p peer.ID) ([]byte, error) {
 	vsync.YieldPoint("store.Get")
+	s.gets++
+	if s.faultAt > 0 && s.gets == s.faultAt {
+		return nil, fmt.Errorf("injected metadata store fault at Get #%d", s.gets)
+	}
 	return s.v, nil
 }
 func (s *vfSchedStore) Put(ctx context.Context, p peer.ID, v []byte) error {
@@ -77,7 +85,7 @@ func vfTBuild(sc *vfTScenario) *vfTRun {
 	case "timecache":
 		r.tc = timecache.NewTimeCacheWithStrategy(timecache.Strategy(sc.Strategy), 0x7fffffffffff)
 	case "seqno":
-		r.store = &vfSchedStore{}
+		r.store = &vfSchedStore{faultAt: sc.GetFaultAt}
 		r.val = NewBasicSeqnoValidator(r.store, slog.New(slog.NewTextHandler(io.Discard, nil)))
 	}
 	for ti, ops := range sc.Threads {
@@ -317,6 +325,14 @@ func vfC20SchedScenarios(thorough bool) []*vfTScenario {
 		{Kind: "seqno", Variant: "sched", Name: "wide-range-replay", Threads: [][]string{l("val:3", "val:4611686018427387904", "val:9223372036854775813", "val:3", "val:4")}},
 		{Kind: "seqno", Variant: "sched", Name: "wide-range-max", Threads: [][]string{l("val:100", "val:4611686018427387904", "val:13835058055282163711", "val:max", "val:100", "val:101")}},
 		{Kind: "seqno", Variant: "sched", Name: "wide-range-racing", Threads: [][]string{l("val:3", "val:4611686018427387904", "val:3"), l("val:9223372036854775813", "val:5")}},
+	}
+	// metadata-store faults: every Get of the execution in turn fails (a read that fails must end in Ignore; in
+	// particular the re-read under the exclusive lock must not fall back on the optimistic first read)
+	for k := 1; k <= 4; k++ {
+		out = append(out, &vfTScenario{Kind: "seqno", Variant: "sched", Name: fmt.Sprintf("competing-1-2-getfault%d", k), Threads: [][]string{l("val:1"), l("val:2")}, GetFaultAt: k})
+	}
+	for k := 1; k <= 6; k++ {
+		out = append(out, &vfTScenario{Kind: "seqno", Variant: "sched", Name: fmt.Sprintf("decreasing-pair-getfault%d", k), Threads: [][]string{l("val:2", "val:1"), l("val:3")}, GetFaultAt: k})
 	}
 	if thorough {
 		out = append(out, &vfTScenario{Kind: "seqno", Variant: "sched", Name: "three-threads-mixed", Threads: [][]string{l("val:1", "val:3"), l("val:2"), l("val:2", "val:max")}})
